@@ -1109,8 +1109,16 @@ pub fn run_trace(trace: &Trace, ctx: &mut Ctx) -> RunOutcome {
                 if *path_len >= 0 || *dir_tweak >= 0 {
                     let (mut p, mut d) = if in_tree { n.model.path(*index as usize) } else { (vec![Fr::from(0u64); DEPTH], vec![0u8; DEPTH]) };
                     if *path_len >= 0 {
-                        p.resize(*path_len as usize, Fr::from(3u64));
-                        d.resize(*path_len as usize, 0);
+                        // 0..99: both lists get that length; 100+k: only the sibling list (k entries); 200+k: only the direction list
+                        let (pl, dl) = if *path_len >= 200 {
+                            (p.len(), (*path_len - 200) as usize)
+                        } else if *path_len >= 100 {
+                            ((*path_len - 100) as usize, d.len())
+                        } else {
+                            (*path_len as usize, *path_len as usize)
+                        };
+                        p.resize(pl, Fr::from(3u64));
+                        d.resize(dl, 0);
                     }
                     if *dir_tweak >= 0 && !d.is_empty() {
                         let k = (*dir_tweak as usize) % d.len();
